@@ -762,6 +762,12 @@ package gohlslib
 //@   ensures (result == nil && !h.NonKeyFrame) ==> h.ColorConfig != nil
 //@ end
 
+// read off mediacommon's init.go: every parsed track is a freshly allocated InitTrack; an init file without tracks is an error
+//@ func ext:fmp4.Init.Unmarshal
+//@   modifies *i
+//@   ensures result == nil ==> (len(i.Tracks) >= 1 && forall(k, (0 <= k && k < len(i.Tracks)) ==> i.Tracks[k] != nil))
+//@ end
+
 //@ func ext:url.ParseQuery
 //@   ensures result0 != nil ==> fresh(result0)
 //@ end
@@ -1584,4 +1590,32 @@ package gohlslib
 //@   role init
 //@   modifies q.didPush, q.didPull
 //@   ensures q.didPush != nil && q.didPull != nil
+//@ end
+
+// ---------------------------------------------------------------------------------------
+// C09 / C13: the tracks the fMP4 client reports, for every init segment the server can send: one Track per init
+// track, in order, ClockRate = its (non-zero) time scale, codec converted by codecs.FromFMP4, and for a rendition
+// stream the name, language and default flag of the EXT-X-MEDIA entry it was selected from.
+//@ pred reportsTrack(p *clientStreamProcessorFMP4, t *Track, it *fmp4.InitTrack) := t != nil && t.ClockRate == it.TimeScale && t.ClockRate > 0
+//@   && (!p.isLeading ==> (t.Name == p.rendition.Name && t.Language == p.rendition.Language && t.IsDefault == p.rendition.Default))
+//@   && (p.isLeading ==> (t.Name == "" && t.Language == "" && !t.IsDefault))
+
+//@ func clientStreamDownloader.setTracks
+//@   props C09
+//@   nosafety
+//@   noframe
+//@   nocallpre
+//@ end
+
+//@ func clientStreamProcessorFMP4.run
+//@   props C09 C13
+//@   nosafety
+//@   noframe
+//@   nocallpre
+//@   requires !p.isLeading ==> p.rendition != nil
+//@   loop 1 invariant ri < len(p.init.Tracks) && forall(k, (0 <= k && k <= ri) ==> (p.init.Tracks[k] != nil && p.init.Tracks[k].TimeScale != 0))
+//@   loop 2 invariant ri < len(p.init.Tracks) && len(tracks) == len(p.init.Tracks) && forall(k, (0 <= k && k < len(p.init.Tracks)) ==> (p.init.Tracks[k] != nil && p.init.Tracks[k].TimeScale != 0))
+//@   loop 2 invariant forall(k, (0 <= k && k <= ri) ==> reportsTrack(p, tracks[k], p.init.Tracks[k]))
+//@   atcall clientStreamDownloader.setTracks len(arg2) == len(p.init.Tracks) && len(arg2) <= clientMaxTracksPerStream && forall(k, (0 <= k && k < len(arg2)) ==> reportsTrack(p, arg2[k], p.init.Tracks[k]))
+//@   ensures result != nil
 //@ end
